@@ -258,10 +258,14 @@ def cfg_key(rng, nexp=None, basic=False, trunc=False, zone_mode=None):
         key["allow_only_basic"] = True
     if trunc:
         key["allow_truncated"] = True
-    zm = zone_mode or rng.choice(("assumed", "assumed", "unknown", "local"))
-    if zm == "assumed":
+    zm = zone_mode or rng.choice(("assumed", "assumed", "unknown", "local",
+                                  "both"))
+    if zm == "assumed" and rng.random() < 0.15:
+        zm = "both"
+    if zm in ("assumed", "both"):
         key["assumed_time_zone"] = list(gen.rand_offset(rng))
-    elif zm == "unknown":
+    if zm in ("unknown", "both"):
+        # (with an assumed zone as well, the assumed zone takes precedence)
         key["default_to_unknown_time_zone"] = True
     return key
 
@@ -493,7 +497,8 @@ def make_trunc(rng, dform, tform, zform, local=(0, 0)):
     cfg = cfg_key(rng, trunc=True,
                   zone_mode=rng.choice(("unknown", "unknown", "assumed")))
     if zexp is None:
-        zexp = None if cfg.get("default_to_unknown_time_zone") else \
+        zexp = None if (cfg.get("default_to_unknown_time_zone") and
+                        cfg.get("assumed_time_zone") is None) else \
             default_zone(cfg, local)
     tag = "trunc/%s/%s" % (name or "T", tform or "date")
     return {"op": "parse", "cfg": cfg, "text": text, "local": list(local),
